@@ -201,8 +201,8 @@ func (ex *Exec) concInt(v Value, k intKind) int64 {
 func (fr *frame) visitInstr(instr ssa.Instruction) continuation {
 	ex := fr.ex
 	ex.steps++
-	if ex.steps > maxSteps {
-		panic(abortPath{outBudget, fmt.Sprintf("step budget of %d SSA instructions exhausted in %s", maxSteps, fr.fn)})
+	if ex.steps > ex.job.maxSteps {
+		panic(abortPath{outBudget, fmt.Sprintf("step budget of %d SSA instructions exhausted in %s", ex.job.maxSteps, fr.fn)})
 	}
 	switch instr := instr.(type) {
 	case *ssa.DebugRef:
